@@ -85,15 +85,11 @@ theorem after_fetch_not_done (c : Core) (a : Isa.Arch) (h : AtFetch c a) : (Core
   simp only [Core.step, Core.done, Core.execWord, Core.updateWord, haddr, hf]
   exact fetch_successor_not_fetch 6 (by decide) (by decide) _ hir _ _ _
 
-/-- **Termination of the assembly step**, as a theorem: from an instruction boundary with any defined
-instruction (MUL and DIV with any operands included) and no interrupt pending, `trigger_key_clock` in
-assembly mode returns — whatever the registers, flags, memory, wait flag, halt state and
-supervision limits are. -/
-theorem keyClock_terminates (m : Machine) (a : Isa.Arch) (h : AtFetch m.core a) (hint : m.core.pendInt = false)
-    (hc : C01.Covered a) : ∃ fuel m', keyClock fuel m = some m' := by
-  obtain ⟨n, a', hn, _, hf, _⟩ := C01.isa_refines m.core a h hint hc
-  have hdone : (Core.iter n m.core).done = true := by
-    simp only [Core.done, hf.fetch]; decide
+/-- Termination of the assembly step from a boundary, given that the data path reaches the next
+boundary word after `n > 0` steps (how that is known differs: C01's refinement for an interrupt-free
+instruction, C09's graph bounds when an interrupt may be pending). -/
+theorem keyClock_terminates_of_reach (m : Machine) (a : Isa.Arch) (h : AtFetch m.core a) (n : Nat) (hn : 0 < n)
+    (hdone : (Core.iter n m.core).done = true) : ∃ fuel m', keyClock fuel m = some m' := by
   cases hm : m.mode with
   | real => exact ⟨1, _, keyClock_real 1 m hm⟩
   | assembly =>
@@ -141,4 +137,16 @@ theorem keyClock_terminates (m : Machine) (a : Isa.Arch) (h : AtFetch m.core a) 
     have : fa + fb = fb + fa := by omega
     rw [this, Option.bind_some, monoB fa]
 
+/-- **Termination of the assembly step**, as a theorem: from an instruction boundary with any defined
+instruction (MUL and DIV with any operands included) and no interrupt pending, `trigger_key_clock` in
+assembly mode returns — whatever the registers, flags, memory, wait flag, halt state and
+supervision limits are. -/
+theorem keyClock_terminates (m : Machine) (a : Isa.Arch) (h : AtFetch m.core a) (hint : m.core.pendInt = false)
+    (hc : C01.Covered a) : ∃ fuel m', keyClock fuel m = some m' := by
+  obtain ⟨n, a', hn, _, hf, _⟩ := C01.isa_refines m.core a h hint hc
+  have hdone : (Core.iter n m.core).done = true := by
+    simp only [Core.done, hf.fetch]; decide
+  exact keyClock_terminates_of_reach m a h n hn hdone
+
 end Emu2a.C11
+
